@@ -4,7 +4,7 @@ import calendar
 
 from ..core import AnalysisError, dotted, call_name, src, walk_local, const_value
 from ..flow import edge_facts, leaves
-from ..rules import flow_of, state_writes, facts_at, canon, cmp_norm, calls_in, bind_args, collect_list, specialise
+from ..rules import flow_of, state_writes, facts_at, canon, cmp_norm, calls_in, bind_args, collect_list, specialise, norm_items
 from ..units import check_units
 from ..tables import UNITS
 
@@ -285,13 +285,16 @@ def rule_lookup(ck, rid="C17.S1"):
     ck.require(desc, rid, f, lp.stmt.iter, ok="breakpoints scanned from the latest to the earliest", bad="breakpoints must be scanned in descending time order (latest first)", sink="scan-descending")
     ck.require(base == "self._get_tariff_schedule(%s).tariffs" % dt, rid, f, lp.stmt.iter, ok="of the schedule valid for that date", bad="the scan must use the tariffs of _get_tariff_schedule(date_time)",
                sink="scan-source")
-    var = dotted(lp.stmt.target)
+    lvars = {x.id for x in ast.walk(lp.stmt.target) if isinstance(x, ast.Name)}
+    elem = f"__elem__({canon(it)})"
     rets = [n for n in fl.cfg.nodes if n.kind == "return" and fl.cfg.dominates(lp, n)]
     ok = False
     for r in rets:
-        inner = [(a, t) for a, t in facts_at(fl, r) if any(isinstance(x, ast.Name) and x.id == var for x in ast.walk(a))]
-        good = [c for a, t in inner if (c := cmp_norm(a, t)) and canon(c[0]) == f"{var}[0]" and c[1] == "<=" and canon(fl.expand(c[2], r)).startswith("Decimal(")]
-        if len(good) == 1 and len(inner) == 1 and canon(r.expr) == f"{var}[1]":
+        # the loop element is r (then r[0] / r[1]) or is unpacked by the loop target (begins, price): both are __item__(element, k)
+        inner = [(a, t) for a, t in facts_at(fl, r) if any(isinstance(x, ast.Name) and x.id in lvars for x in ast.walk(a))]
+        good = [c for a, t in inner if (c := cmp_norm(a, t)) and canon(norm_items(fl.expand(c[0], r))) == f"__item__({elem}, 0)" and c[1] == "<="
+                and canon(fl.expand(c[2], r)).startswith("Decimal(")]
+        if len(good) == 1 and len(inner) == 1 and r.expr is not None and canon(norm_items(fl.expand(r.expr, r))) == f"__item__({elem}, 1)":
             ok = True
     ck.require(ok, rid, f, rets[0].stmt if rets else "return r[1]", ok="returns the price of the first breakpoint with t <= target hour (inclusive)",
                bad="must return r[1] for the first breakpoint with target_hour >= r[0] (inclusive)", sink="scan-return")
